@@ -126,8 +126,16 @@ def guarded(sk, f, x, cnt, base):
 def rule_I(ck, lib, sk, rid):
     """Incomplete of a newline-transparent parser is never dropped."""
     nts = sorted(p.split("::")[-1] for p, f in sk.fns.items() if sk.attr(("fn" if f["kind"] == "direct" else "factory", p)).get("nt") and p.split("::")[-1] not in ("satisfy", "optional", "take_while"))
-    ck.judge(set(["single_quoted_string_program_data", "double_quoted_string_program_data", "arbitrary_program_data", "argument", "arguments", "parse"]) <= set(nts),
-             rid, "nt-set", "newline-transparent parsers (computed): %s" % nts, "computed newline-transparent set lost a member: %s" % nts)
+    # positive control of the computation: the recognisers of strings and blocks (found by the Value variant they return,
+    # whatever they are called) and the parsers above them must come out newline-transparent
+    must = {"argument", "arguments", "parse"}
+    n_cont = 0
+    for p, f in sk.fns.items():
+        if f["kind"] == "direct" and any(value_ctor(sk, x)[0] in ("String", "Arbitrary") for x in f["exits"]):
+            must.add(p.split("::")[-1])
+            n_cont += 1
+    ck.judge(must <= set(nts) and n_cont >= 3, rid, "nt-set", "newline-transparent parsers (computed): %s" % nts,
+             "computed newline-transparent set %s lacks %s (string/block recognisers found: %d)" % (nts, sorted(must - set(nts)), n_cont))
     seen = {}
     n_sites = 0
     for d in sk.dropped():
